@@ -42,7 +42,32 @@ fn ensure_preload() {
   std::process::exit(2);
 }
 
+struct StderrLog;
+impl log::Log for StderrLog {
+  fn enabled(&self, m: &log::Metadata) -> bool {
+    m.level() <= log::max_level()
+  }
+  fn log(&self, r: &log::Record) {
+    if self.enabled(r.metadata()) {
+      let t = if simcore::is_active() { simcore::now_ns() } else { 0 };
+      eprintln!("[{} t={} n{} {}] {}", r.level(), t, simcore::node(), r.target(), r.args());
+    }
+  }
+  fn flush(&self) {}
+}
+static LOGGER: StderrLog = StderrLog;
+
 fn main() {
+  if let Ok(l) = std::env::var("VERIF_LOG") {
+    let _ = log::set_logger(&LOGGER);
+    log::set_max_level(match l.as_str() {
+      "trace" => log::LevelFilter::Trace,
+      "debug" => log::LevelFilter::Debug,
+      "info" => log::LevelFilter::Info,
+      "warn" => log::LevelFilter::Warn,
+      _ => log::LevelFilter::Error,
+    });
+  }
   let args: Vec<String> = std::env::args().collect();
   if args.len() < 2 {
     eprintln!("usage: dst run|worker|recheck|replay|one|list ...");
